@@ -255,6 +255,22 @@ class ExprMixin:
             items = [self.binop(op, ea[k] if ea is not None else a, eb[k] if eb is not None else b, node, st)
                      for k in range(n)]
             return self.new_ndarray(st, items)
+        if op in (ast.Div, ast.Mult) and isinstance(a, Ref) and not isinstance(b, (Ref, Seq)):
+            o = st.heap.get(a.oid)
+            if isinstance(o, ArrObj) and o.pykind == 'ndarray' and o.items is None and o.shape is None and o.kind == 'val':
+                # NumPy broadcasting of a scalar over a 1-D float array (A3): a new array
+                b_ = self.need_num(b, node)
+                s_ = vlit(b_)
+                if op is ast.Div:
+                    self.oblige('div0', (zint(b_) != 0) if is_int(b_) else (s_ != vzero), st, node, 'division of an array by zero')
+                f = vdiv if op is ast.Div else vmul
+                new = fresh('npbc', z3.ArraySort(IntS, Val))
+                k_ = z3.Const('bc_k!%d' % self.qcount(), IntS)
+                pats = [z3.Select(new, k_)] + ([z3.Select(o.arr, k_)] if z3.is_const(o.arr) else [])
+                st.assume(z3.ForAll([k_], z3.Select(new, k_) == f(z3.Select(o.arr, k_), s_), patterns=pats))
+                oid = st.new_oid('N')
+                st.heap[oid] = ArrObj('val', arr=new, length=o.length, pykind='ndarray', dtype='float')
+                return Ref(oid)
         if op is ast.Mult and (isinstance(a, Ref) or isinstance(b, Ref)):
             return self.list_repeat(a, b, node, st)
         if op is ast.Add and isinstance(a, str) and isinstance(b, str):
@@ -628,7 +644,7 @@ class ExprMixin:
             return Seq(lambda k, sub=sub: self.pick(sub, k), len(sub), kind, items=sub)
         n = ite(compare('<', b, a), 0, self.binop(ast.Sub, b, a, node, st) if not self.spec_mode else zint(b) - zint(a))
         if isinstance(base, Seq):
-            return Seq(lambda k: bget(zint(a) + zint(k)), n, kind)
+            return Seq(lambda k: bget(zint(a) + zint(k)), n, kind, nd=base.nd)
         if rows is not None:
             raise Unsupported('slice of a series collection')
         if items is not None:
@@ -690,7 +706,7 @@ class ExprMixin:
                 return sel2(arr, zint(i), zint(j))
             s0, n0 = zint(start), zint(n)
             pos = (at, s0, s0 + n0, s0, 1) if step == 1 else (at, s0 - n0 + 1, s0 + 1, s0, -1)
-        return Seq(get, n, obj.kind, pos=pos)
+        return Seq(get, n, obj.kind, pos=pos, nd=(obj.pykind == 'ndarray'))
 
     def np_slice_range(self, sl, dim, node, st):
         """start, count, step of a Python slice on an axis of length dim; step in {1,-1}."""
